@@ -74,10 +74,49 @@ func (e *Engine) siteHook(st *State, fr *Frame, kind string, ins ssa.Instruction
 	}
 }
 
+// entryEvents runs the "on-entry" clauses of a function's contract (unit entry or inlined call).
+func (e *Engine) entryEvents(st *State, fr *Frame) {
+	ct := e.contractFor(fr.fn)
+	if ct == nil {
+		return
+	}
+	for _, ev := range ct.Events {
+		if ev.Kind != "on-entry" {
+			continue
+		}
+		env := e.eventEnv(st, fr, ev, nil)
+		e.runEvent(st, fr, ev, env, "entry", fr.fn.Pos(), nil)
+	}
+}
+
+// storeHook: "at store <lvalue text>:" clauses.
+func (e *Engine) storeHook(st *State, fr *Frame, x *ssa.Store, v Val) {
+	ct := e.contractFor(fr.fn)
+	if ct == nil {
+		return
+	}
+	var target string
+	for _, ev := range ct.Events {
+		if ev.Kind != "at" || !strings.HasPrefix(ev.Target, "store ") {
+			continue
+		}
+		if target == "" {
+			target = "store " + e.exprText(fr.fn, x.Addr)
+		}
+		if ev.Target != target {
+			continue
+		}
+		ev2 := *ev
+		ev2.Params = []string{"value$"}
+		env := e.eventEnv(st, fr, &ev2, []Val{v})
+		e.runEvent(st, fr, ev, env, target, x.Pos(), x)
+	}
+}
+
 func (e *Engine) eventEnv(st *State, fr *Frame, ev *EventClause, args []Val) *Env {
 	env := &Env{eng: e, st: st, pkg: e.pkgOf(fr.fn), vars: map[string]Val{}, oldSnap: st.unitOld, hasOld: true, where: "event " + ev.Target + " in " + funcDisplayName(fr.fn)}
 	e.localsEnv(st, fr, env)
-	if st.unit.ghostVars != nil && fr.fn == st.unit.Fn {
+	if st.unit.ghostVars != nil {
 		for k, v := range st.unit.ghostVars {
 			env.vars[k] = v
 		}
@@ -91,6 +130,24 @@ func (e *Engine) eventEnv(st *State, fr *Frame, ev *EventClause, args []Val) *En
 }
 
 func (e *Engine) runEvent(st *State, fr *Frame, ev *EventClause, env *Env, what string, pos token.Pos, ins ssa.Instruction) {
+	for _, u := range ev.Uses {
+		// only instances of built-in, valid lemmas may be assumed
+		if u.Expr.Op != "call" || !builtinLemmas[u.Expr.Name] {
+			env.errf("'use' accepts built-in lemma instances only: %s", u.Text)
+			continue
+		}
+		// a lemma call: premises are proof obligations, the conclusion is then assumed
+		env.lemmaPrem = nil
+		concl := env.evalBool(u.Expr)
+		for j, p := range env.lemmaPrem {
+			name := fmt.Sprintf("%s#event[%s].use[%s].premise%d", funcDisplayName(fr.fn), what, u.Expr.Name, j)
+			if fr.fn != st.unit.Fn {
+				name = st.unit.Name + ">" + name
+			}
+			st.check("lemma-premise", name, p, pos)
+		}
+		st.assume(concl)
+	}
 	for i, a := range ev.Asserts {
 		nm := a.Name
 		if nm == "" {
@@ -216,6 +273,7 @@ func (e *Engine) callIfaceContract(st *State, fr *Frame, c *ssa.CallCommon, ct *
 	for k, v := range st.heaps {
 		snap[k] = v
 	}
+	st.bumpFrontier()
 	e.havocModifies(st, env, ct)
 	res := e.freshResult(st, "res_"+c.Method.Name(), sig.Results())
 	post := &Env{eng: e, st: st, pkg: env.pkg, vars: env.vars, oldSnap: snap, hasOld: true, where: "ensures of " + ct.Target}
@@ -236,7 +294,106 @@ func (e *Engine) callIfaceContract(st *State, fr *Frame, c *ssa.CallCommon, ct *
 	return res
 }
 
+var builtinLemmas = map[string]bool{"subsetCardEq": true}
+
+// specBuiltin: functions available in contracts beyond Go's.
 func (e *Engine) specBuiltin(env *Env, name string, ex *SExpr) (Val, bool) {
+	arg := func(i int) Val { return env.eval(ex.Args[i]) }
+	switch name {
+	case "sha256":
+		// sha256(b): the SHA-256 digest of the contents of b as a string (uninterpreted, deterministic)
+		if env.quant > 0 {
+			env.errf("sha256() is not available inside quantifiers")
+			return Val{}, false
+		}
+		b := arg(0)
+		c := e.contentOf(env.st, b)
+		reg.declareFun("lib!digest", []string{"Str", "Str"}, "Str")
+		return Val{S: fmt.Sprintf("(lib!digest %s %s)", strLit("sha256"), c), T: tString}, true
+	case "same":
+		// same(a, b): two slices have the same header (backing array, offset, length)
+		a, b := arg(0), arg(1)
+		return Val{S: and(eq(slRef(a.S), slRef(b.S)), eq(slOff(a.S), slOff(b.S)), eq(slLen(a.S), slLen(b.S))), T: tBool}, true
+	case "ite":
+		if len(ex.Args) != 3 {
+			return Val{}, false
+		}
+		c := env.evalBool(ex.Args[0])
+		a, b := arg(1), arg(2)
+		if isUntyped(a.T) && !isUntyped(b.T) {
+			a = env.coerce(a, b.T)
+		} else if isUntyped(b.T) && !isUntyped(a.T) {
+			b = env.coerce(b, a.T)
+		}
+		return Val{S: ite(c, a.S, b.S), T: a.T}, true
+	case "keys":
+		// keys(m): the key set of a map as a ghost set
+		m := arg(0)
+		mt, ok := m.T.Underlying().(*types.Map)
+		if !ok {
+			env.errf("keys() needs a map")
+			return Val{}, false
+		}
+		dn, _, ds, _, ks := mapHeapNames(mt)
+		dom := sel(env.heap(dn, ds), m.S)
+		empty := fmt.Sprintf("((as const (Array %s Bool)) false)", ks)
+		return Val{S: ite(eq(m.S, "0"), empty, dom), T: &ghostMapType{key: mt.Key(), elem: tBool}}, true
+	case "without":
+		s := arg(0)
+		gs, ok := s.T.(*ghostMapType)
+		if !ok {
+			env.errf("without() needs a ghost set")
+			return Val{}, false
+		}
+		k := env.coerce(arg(1), gs.key)
+		r := store(s.S, k.S, "false")
+		if env.quant == 0 && env.st != nil {
+			card := cardFun(sortOf(gs.key))
+			w := env.st.freshConst("without", sortOf(s.T))
+			env.st.assume(eq(w, r))
+			env.st.assume(fmt.Sprintf("(= (%s %s) (- (%s %s) (ite (select %s %s) 1 0)))", card, w, card, s.S, s.S, k.S))
+			// membership in the original set is a trigger for membership in the difference
+			env.st.assume(fmt.Sprintf("(forall ((k!w %s)) (! (= (select %s k!w) (and (select %s k!w) (not (= k!w %s)))) :pattern ((select %s k!w))))", sortOf(gs.key), w, s.S, k.S, s.S))
+			r = w
+		}
+		return Val{S: r, T: s.T}, true
+	case "card":
+		s := arg(0)
+		if gs, ok := s.T.(*ghostMapType); ok {
+			card := cardFun(sortOf(gs.key))
+			if env.quant == 0 && env.st != nil {
+				env.st.assume(fmt.Sprintf("(>= (%s %s) 0)", card, s.S))
+			}
+			return Val{S: fmt.Sprintf("(%s %s)", card, s.S), T: tInt}, true
+		}
+		return Val{}, false
+	case "subsetCardEq":
+		// valid for finite sets: A subset of B and |A| >= |B|  ==>  A == B   (Finset.eq_of_subset_of_card_le)
+		a, b := arg(0), arg(1)
+		ga, ok1 := a.T.(*ghostMapType)
+		_, ok2 := b.T.(*ghostMapType)
+		if !ok1 || !ok2 || sortOf(a.T) != sortOf(b.T) {
+			env.errf("subsetCardEq needs two sets of the same type")
+			return Val{}, false
+		}
+		ks := sortOf(ga.key)
+		card := cardFun(ks)
+		if env.st != nil && env.quant == 0 {
+			// name the two sets so that the patterns below are plain selects
+			na := env.st.freshConst("setA", sortOf(a.T))
+			nb := env.st.freshConst("setB", sortOf(b.T))
+			env.st.assume(eq(na, a.S))
+			env.st.assume(eq(nb, b.S))
+			a.S, b.S = na, nb
+		}
+		e.assumptions["finite-set fact (Finset.eq_of_subset_of_card_le): A subset B and |A| >= |B| imply A = B, used as a lemma instance"] = true
+		env.lemmaPrem = append(env.lemmaPrem,
+			fmt.Sprintf("(forall ((k!s %s)) (! (=> (select %s k!s) (select %s k!s)) :pattern ((select %s k!s))))", ks, a.S, b.S, a.S),
+			fmt.Sprintf("(>= (%s %s) (%s %s))", card, a.S, card, b.S))
+		f := fmt.Sprintf("(forall ((k!t %s)) (! (= (select %s k!t) (select %s k!t)) :pattern ((select %s k!t)) :pattern ((select %s k!t))))",
+			ks, a.S, b.S, b.S, a.S)
+		return Val{S: f, T: tBool}, true
+	}
 	return Val{}, false
 }
 
